@@ -38,7 +38,10 @@ SLICES = [
 
 
 def register(reg):
-    reg.record('ApertureMask', {'data': ('arr', 2, 'real', 'nonempty'), 'bbox': 'BoundingBox'})
+    reg.record('ApertureMask', {'data': ('arr', 2, 'real', 'nonempty'), 'bbox': 'BoundingBox',
+                                '_mask': ('arr', 2, 'bool')})
+    register_mask_images(reg)
+    register_multiply(reg)
 
     # delegation to the bounding box: same contract, seen through self.bbox
     reg.add(Contract(
@@ -138,4 +141,102 @@ def register(reg):
         ],
         mutants=[('error[slc_large].astype(float)**2', 'error[slc_large].astype(float)'),
                  ('error[slc_large].astype(float)**2', 'error[slc_large].astype(float)**2 * aper_weights')],
+    ))
+
+
+def register_mask_images(reg):
+    """ApertureMask.to_image / cutout: the mask weight of image pixel (y, x) lands on image pixel
+    (y, x); data pixel (y, x) lands on cutout pixel (y - iymin, x - ixmin); everything else is the
+    fill value; None iff the box misses the image (through the get_overlap_slices contract)."""
+    inside = ('self.bbox.iymin <= y and y < self.bbox.iymax and self.bbox.ixmin <= x and '
+              'x < self.bbox.ixmax')
+    reg.add(Contract(
+        target=f'{M}.to_image', props=['C01', 'C02'], kind='method',
+        params={'self': 'ApertureMask', 'shape': ('tuple', 'int', 'int'),
+                'dtype': ('const', 'float')},
+        requires=VALID,
+        returns=[(DISJOINT, None), (f'not ({DISJOINT})', ('arr', 2, 'real'))],
+        ensures=[
+            ('none-iff-disjoint', f'iff(result is None, {DISJOINT})'),
+            ('image-shape', 'implies(not (result is None), result.shape == shape)'),
+            ('weights-at-their-own-pixels-zero-elsewhere',
+             'implies(not (result is None), forall(lambda y, x: result[y, x] == '
+             f'ite({inside}, self.data[y - self.bbox.iymin, x - self.bbox.ixmin], 0), '
+             '(0, shape[0]), (0, shape[1])))'),
+        ],
+        mutants=[('image[slices_large] = self.data[slices_small]',
+                  'image[slices_small] = self.data[slices_large]'),
+                 ('image = np.zeros(shape, dtype=dtype)', 'image = np.ones(shape, dtype=dtype)')],
+    ))
+    for copy in (False, True):
+        reg.add(Contract(
+            target=f'{M}.cutout', props=['C01', 'C02'], kind='method', tag=f'copy={copy}',
+            defaults={'copy': False, 'fill_value': 0.0},
+            params={'self': 'ApertureMask', 'data': ('arr', 2, 'real', 'nonempty'),
+                    'fill_value': 'real', 'copy': ('const', copy)},
+            requires=[v.replace('shape[0]', 'data.shape[0]').replace('shape[1]', 'data.shape[1]')
+                      if 'self.data.shape' not in v else v for v in VALID],
+            returns=[(DISJOINT.replace('shape[', 'data.shape['), None),
+                     ('not (' + DISJOINT.replace('shape[', 'data.shape[') + ')',
+                      ('arr', 2, 'real'))],
+            ensures=[
+                ('none-iff-disjoint',
+                 'iff(result is None, ' + DISJOINT.replace('shape[', 'data.shape[') + ')'),
+                ('box-shape', 'implies(not (result is None), result.shape == self.data.shape)'),
+                ('data-at-box-relative-pixels-fill-elsewhere',
+                 'implies(not (result is None), forall(lambda j, i: result[j, i] == '
+                 'ite(0 <= j + self.bbox.iymin and j + self.bbox.iymin < data.shape[0] and '
+                 '0 <= i + self.bbox.ixmin and i + self.bbox.ixmin < data.shape[1], '
+                 'data[j + self.bbox.iymin, i + self.bbox.ixmin], fill_value), '
+                 '(0, self.data.shape[0]), (0, self.data.shape[1])))'),
+            ],
+            mutants=[('cutout[slices_small] = data[slices_large]',
+                      'cutout[slices_small] = data[slices_small]'),
+                     ('cutout[:] = fill_value', 'cutout[:] = 0')],
+        ))
+
+
+def register_multiply(reg):
+    DIS = DISJOINT.replace('shape[', 'data.shape[')
+    # class invariant established by the constructor: _mask marks the zero-weight pixels and the
+    # data array has the shape of the bounding box
+    reg.record('ApertureMaskNew', {})
+    reg.add(Contract(
+        target=f'{M}.__init__', props=['C01', 'C02'], kind='method',
+        params={'self': 'ApertureMaskNew', 'data': ('arr', 2, 'real', 'nonempty'),
+                'bbox': 'BoundingBox'},
+        requires=['bbox.ixmin < bbox.ixmax', 'bbox.iymin < bbox.iymax'],
+        raises=[('ValueError', 'data.shape != (bbox.iymax - bbox.iymin, bbox.ixmax - bbox.ixmin)')],
+        ensures=[('mask-marks-zero-weights',
+                  'self._mask.shape == data.shape and forall(lambda j, i: iff(self._mask[j, i], '
+                  'data[j, i] == 0), (0, data.shape[0]), (0, data.shape[1]))'),
+                 ('stores-data-and-box',
+                  'self.data.shape == data.shape and forall(lambda j, i: self.data[j, i] == '
+                  'data[j, i], (0, data.shape[0]), (0, data.shape[1])) and '
+                  'self.bbox.ixmin == bbox.ixmin and self.bbox.iymax == bbox.iymax')],
+        mutants=[('self._mask = (self.data == 0)', 'self._mask = (self.data <= 0)'),
+                 ('if self.data.shape != bbox.shape:', 'if self.data.shape == bbox.shape:')],
+    ))
+    reg.add(Contract(
+        target=f'{M}.multiply', props=['C01', 'C02'], kind='method',
+        params={'self': 'ApertureMask', 'data': ('arr', 2, 'real', 'nonempty'),
+                'fill_value': 'real'},
+        requires=[v.replace('shape[0]', 'data.shape[0]').replace('shape[1]', 'data.shape[1]')
+                  if 'self.data.shape' not in v else v for v in VALID]
+        + ['self._mask.shape == self.data.shape',
+           'forall(lambda j, i: iff(self._mask[j, i], self.data[j, i] == 0), '
+           '(0, self.data.shape[0]), (0, self.data.shape[1]))'],
+        returns=[(DIS, None), (f'not ({DIS})', ('arr', 2, 'real'))],
+        ensures=[
+            ('none-iff-disjoint', f'iff(result is None, {DIS})'),
+            ('weight-times-data-inside-the-shape-fill-outside',
+             'implies(not (result is None), result.shape == self.data.shape and '
+             'forall(lambda j, i: result[j, i] == ite(self.data[j, i] == 0, fill_value, '
+             'self.data[j, i] * ite(0 <= j + self.bbox.iymin and j + self.bbox.iymin < '
+             'data.shape[0] and 0 <= i + self.bbox.ixmin and i + self.bbox.ixmin < data.shape[1], '
+             'data[j + self.bbox.iymin, i + self.bbox.ixmin], fill_value)), '
+             '(0, self.data.shape[0]), (0, self.data.shape[1])))'),
+        ],
+        mutants=[('weighted_cutout[self._mask] = fill_value', 'weighted_cutout[~self._mask] = fill_value'),
+                 ('weighted_cutout = cutout * self.data', 'weighted_cutout = cutout + self.data')],
     ))
